@@ -8,7 +8,7 @@ import traceback
 sys.path.insert(0, os.path.dirname(os.path.abspath(__file__)))
 from common import SPEC, ToolError, build_harness, log, sany, seed_tier  # noqa: E402
 
-CODEC_PROPS = {"C01", "C02", "C04", "C09", "C10", "C14", "C16", "C18"}
+CODEC_PROPS = {"C01", "C02", "C03", "C04", "C09", "C10", "C14", "C16", "C18", "C19"}
 CLIENT_PROPS = {"C05", "C06", "C07", "C08", "C13", "C11", "C12", "C15", "C17"}
 
 
